@@ -63,7 +63,9 @@ def _finish(pid, name, work, bad, unknown, q0, n0, t0, q, samples, validated=0, 
 ALPH = list('#[]=()"\\ \t\n\rab1;$@<>_') + ["é", "#[[", "]]", "#]]", "#[[[", "@module", "\\n", '\\"', "#[=[", "]=]", "𐀀"]
 
 
-def corpus(tier):
+def corpus(tier, D=2):
+    import re as _re
+    deep = _re.compile(r"\[={%d,}\[" % (D + 1))       # bracket level > D is outside the model's bound
     out = []
     try:
         src = open(vf.REPO + "/tests/unit_tests/test_lexer.py", encoding="utf-8").read()
@@ -80,7 +82,7 @@ def corpus(tier):
             s = open(f, encoding="utf-8").read()
         except (OSError, UnicodeDecodeError):
             continue
-        if len(s) < (60000 if tier == "thorough" else 12000):
+        if len(s) < (60000 if tier == "thorough" else 12000) and not deep.search(s):
             out.append(s)
     rnd = random.Random(vf.SEED)
     for _ in range(6000 if tier == "thorough" else 1500):
@@ -103,7 +105,7 @@ def ob_validate(D, tier, extra_witnesses=()):
         n = 0
         errs = []
         samples = []
-        for s in corpus(tier):
+        for s in corpus(tier, D):
             n += 1
             if not compare(lex, s):
                 errs.append("model and real lexer disagree on %r: real %r model %r" % (s[:60], e2.real_trace(s, lex.ttype_names), lex.trace(s)))
